@@ -203,6 +203,11 @@ func oneFactorLayouts() []gen.Layout {
 	mod(func(l *gen.Layout) { l.Multi = true; l.DashStyle = 3 })
 	mod(func(l *gen.Layout) { l.Multi = true; l.DashStyle = 2; l.NL = "\r\n" })
 	mod(func(l *gen.Layout) { l.Comments = 1; l.NL = "\r" })
+	mod(func(l *gen.Layout) { l.CloseTight = true; l.Multi = true })
+	mod(func(l *gen.Layout) { l.CloseTight = true; l.Multi = true; l.Spread = true; l.NL = "\r\n" })
+	mod(func(l *gen.Layout) { l.HashGlue = true; l.Comments = 1 })
+	mod(func(l *gen.Layout) { l.HashGlue = true; l.Comments = 2; l.PipeStyle = 1 })
+	mod(func(l *gen.Layout) { l.HashGlue = true; l.EmptyHash = 1 })
 	mod(func(l *gen.Layout) { l.EmptyHash = 1 })
 	mod(func(l *gen.Layout) { l.EmptyHash = 1; l.NL = "\r" })
 	mod(func(l *gen.Layout) { l.EmptyHash = 1; l.NL = "\r\n"; l.Multi = true })
@@ -355,6 +360,29 @@ func c14Run(r *mon.Run) {
 		}
 	}
 	r.CountMax("max:corpus_literals", int64(len(corpus)))
+	// hand-written texts around a second annotation line below an annotated member (the first one is the pinned
+	// witness of a recorded finding), under the same transforms
+	if r.Shard == 0 {
+		for i, lit := range c14SecondAnnotationLine {
+			c14Corpus(r, len(corpus)+i, lit)
+		}
+	}
+}
+
+var c14SecondAnnotationLine = []string{
+	"{\n\"a\": 1, // {min: 1}\n// note\n\"b\": 2\n}",
+	"{\n\"a\": 1, // {min: 1}\n\n// note\n\"b\": 2\n}",
+	"{\n\"a\": 1, // x\n// note\n\"b\": 2\n}",
+	"{\n\"a\": 1,\n// note\n\"b\": 2\n}",
+	"{\n\"a\": 1, // {min: 1} - note\n\"b\": 2\n}",
+	"{\n\"a\": 1 // {min: 1}\n// note\n}",
+	"{\n\"a\": 1\n// note\n}",
+	"[\n1, // {min: 1}\n// note\n2\n]",
+	"[\n1 // {min: 1}\n// note\n]",
+	"1 // {min: 1}\n// note",
+	"1\n// note",
+	"{\n\"a\": 1, /* {min: 1} */\n// note\n\"b\": 2\n}",
+	"{\n\"a\": 1, // {min: 1}\n/* note */\n\"b\": 2\n}",
 }
 
 func init() {
